@@ -137,7 +137,9 @@ func judge(e *lib.Env, p *program, msg string) (locVerdict, runOutcome, int) {
 	if msg != "" && !strings.Contains(o.Diag.Msg, msg) {
 		return locOther, o, want
 	}
-	if o.Diag.File != o.Path || o.Diag.Line < want || o.Diag.Line > wantMax {
+	// the file is compared by base name (unique per run; the include wrapper's main file has
+	// another one) so that path normalisation by the CLI cannot matter
+	if filepath.Base(o.Diag.File) != filepath.Base(o.Path) || o.Diag.Line < want || o.Diag.Line > wantMax {
 		return locWrong, o, want
 	}
 	return locOK, o, want
